@@ -196,6 +196,27 @@ impl Part for EncodeSide {
     }
 }
 
+/// durations that a narrowing conversion would wrap into the valid range: (k * 2^W + r) counted in nanoseconds, microseconds,
+/// milliseconds, field units or seconds, for the integer widths W a conversion might pass through
+fn wrap_strategy() -> impl Strategy<Value = DurCase> {
+    (0..DURATION_FIELDS.len(), prop::sample::select(vec![8u32, 16, 31, 32, 63, 64]), 0usize..5, prop_oneof![Just(1u128), 1u128..4, 1u128..1000], prop_oneof![0u128..4, 0u128..70_000, any::<u32>().prop_map(|x| x as u128)]).prop_map(
+        |(field, w, unit, k, r)| {
+            let (_, _, _, scale, _) = DURATION_FIELDS[field];
+            let unit_ns: u128 = match unit {
+                0 => 1,
+                1 => 1_000,
+                2 => 1_000_000,
+                3 => scale as u128 * 1_000_000,
+                _ => 1_000_000_000,
+            };
+            let total = (k << w).saturating_add(r).saturating_mul(unit_ns);
+            let max = u64::MAX as u128 * 1_000_000_000 + 999_999_999;
+            let total = total.min(max);
+            DurCase { field, secs: (total / 1_000_000_000) as u64, nanos: (total % 1_000_000_000) as u32 }
+        },
+    )
+}
+
 fn duration_strategy() -> impl Strategy<Value = DurCase> {
     (0..DURATION_FIELDS.len(), 0usize..10, any::<u32>(), any::<u32>(), -3i64..4).prop_map(|(field, class, a, nanos, delta)| {
         let (_, _, width, scale, _) = DURATION_FIELDS[field];
@@ -384,6 +405,9 @@ pub fn run(run: &mut Run) {
     // encode side
     let n = run.budget(300_000, 10_000_000);
     run.prop(&EncodeSide, duration_strategy(), n);
+    // encode side: values that a narrowing step (u128 -> u64 -> u32 -> u16 ...) would wrap into the valid range
+    let n = run.budget(150_000, 5_000_000);
+    run.prop(&EncodeSide, wrap_strategy(), n);
     // race length
     let mut rl = vec![];
     for w in 0..RACELAPS_FIELDS.len() {
@@ -393,6 +417,22 @@ pub fn run(run: &mut Run) {
         for n in (0..=2000usize).chain([usize::MAX, usize::MAX - 190, usize::MAX / 2, 1 << 32, (1 << 32) + 5, 65536 + 7, 256 + 1, 256 + 191]) {
             rl.push(LapsCase::Laps(w, n));
             rl.push(LapsCase::Hours(w, n));
+        }
+    }
+    // every value that a narrowing step would wrap into a valid byte: k * 2^W + r for the widths a conversion may pass through
+    for w in 0..RACELAPS_FIELDS.len() {
+        for width in [8u32, 16, 31, 32, 63] {
+            for k in [1usize, 2, 3, 255] {
+                for r in (0..=260usize).chain([1000, 1001, 65535]) {
+                    let Some(base) = k.checked_shl(width) else { continue };
+                    let Some(n) = base.checked_add(r) else { continue };
+                    rl.push(LapsCase::Laps(w, n));
+                    rl.push(LapsCase::Hours(w, n));
+                    // ... and values that become valid after the offset (190) or the /10 step is applied first
+                    rl.push(LapsCase::Hours(w, n.wrapping_sub(190)));
+                    rl.push(LapsCase::Laps(w, n.saturating_mul(10).saturating_add(100)));
+                }
+            }
         }
     }
     let n = rl.len() as u64;
